@@ -75,6 +75,11 @@ CLAIMED = {
    note="Assumed: frame id/header/data getters are attributes of the frame object; receiver.OnReceive recorded by ghost state; BaseStream.ResetStream (listener notification) does not touch the stream table. Not covered: all interleavings (the table is guarded by a mutex which is a no-op here), pooled per-request buffers, write-lock contiguity, HTTP/1 and HTTP/2, id generators' wrap-around.",
    technique="contract-based deductive verification (WP over go/ssa, SMT) with map model and ghost delivery record",
    design="5/C02"),
+ "C12": dict(
+   text="Claimed narrowly (two clauses of the statement). Proof level: (1) 'an endpoint assignment yields the union of all its endpoints': ConvertUpdateEndpoints issues exactly one whole-host-set update per load assignment, carrying the endpoints of all its localities (verified for a single assignment; the union is stated for zero and two localities; loops with invariants and a checked frame); (2) 'live host sets are those described by the stored configuration' for cluster updates: in UpdateCluster the live host set is recorded after the cluster config is (ghost ordering protocol), so the dump still describes the live hosts.",
+   note="Assumed: TriggerClusterHostUpdate replaces the host set (ghost record), ConvertEndpointsConfig is a function of the locality message, SetClusterConfig/SetHosts/refreshHostsConfig ghost effects (trusted contracts on in-repo functions). Not covered - and not decidable by contracts within reach: equivalence of the live serving state with a fresh MOSN started from the dump, atomic swaps under concurrent requests, routers/listeners.",
+   technique="contract-based deductive verification (WP over go/ssa, SMT) with ghost update records",
+   design="5/C12"),
 }
 NA = {
  "C11": "quantifies over the arrival time of a signal relative to in-flight requests across two processes (fd passing, drain timers): crash points and schedules of the whole runtime; no function whose pre/postcondition states it (DESIGN.md section 6)",
